@@ -178,7 +178,18 @@ def run_case(case, chooser):
                     if rs == -1:
                         got += await st.read()
                         break
-                    blk = await st.read(rs)
+                    if case.get("read_patience"):
+                        # a caller that does not wait longer than so long for one read and simply asks again
+                        # (StreamReader.read is safe to cancel: nothing that was received may get lost)
+                        try:
+                            blk = await asyncio.wait_for(st.read(rs), case["read_patience"])
+                        except asyncio.TimeoutError:
+                            result["reissued"] = result.get("reissued", 0) + 1
+                            if result["reissued"] > 500:
+                                raise
+                            continue
+                    else:
+                        blk = await st.read(rs)
                     if not blk:
                         break
                     got += blk
@@ -373,6 +384,13 @@ def grid(tier):
             for k in (0, 4):
                 items.append(({"op": "RETR", "target": "old", "n": len(OLD), "k": k, "b": 3, "chunks": [], "readsize": rs,
                                "backend": "memory", "throttle": thr}, 0, [], None))
+    # impatient readers: every read given up after a while (inside a throttle pause) and asked for again
+    for thr in ("client-read-tiny", "client-read", "server-write", None):
+        for rs in (1, 4, 8192):
+            for k in (0, 4):
+                for patience in (0.3, 0.7):
+                    items.append(({"op": "RETR", "target": "old", "n": len(OLD), "k": k, "b": 3, "chunks": [], "readsize": rs,
+                                   "backend": "memory", "throttle": thr, "read_patience": patience}, 0, [], None))
     for thr in ("client-write-tiny", "client-read-tiny"):
         for op, target in (("STOR", "new"), ("APPE", "old"), ("STOR", "old")):
             items.append(({"op": op, "target": target, "n": 7, "k": 0, "b": 3, "chunks": [7], "backend": "memory",
@@ -445,7 +463,7 @@ def run(tier, seed, t0):
               "backends": ["memory", "pathio", "async", "slow", "buffered (custom: data lands at close, close() suspends)"],
               "passive": ["epsv", "pasv"], "throttle": ["off", "server read/write", "client read/write", "client limits far below the file size"],
               "send_buffer": "data beyond a 0-2 byte kernel buffer is kept by reference until the peer takes it (buffer re-use shows)",
-              "client_read_styles": ["read(n) loops", "one read() until EOF"],
+              "client_read_styles": ["read(n) loops", "one read() until EOF", "reads given up after 0.3 / 0.7 s and re-issued"],
               "pipelined": "REST k + transfer + one more command in one segment x {memory, lookups waiting for executor "
                            "jobs, async} x order deviations",
               "deviation_bound": 1 if tier == "quick" else 2, "cases": len(items)}
